@@ -4,9 +4,37 @@ from gen_tables import generator, HEADER
 import py2lean
 
 
+_LEAN_WORDS = {'let', 'if', 'then', 'else', 'decide', 'true', 'false', 'Int', 'Nat', 'Bool', 'max', 'min', 'fun'}
+
+
+def _free_names(out, params, body):
+    """Bare identifiers of a generated body that are bound by nothing: not a parameter, not let-bound, not a
+    Lean word, not an earlier definition of this file.  (A module constant the translator did not resolve, a
+    name captured from a refactored source, ...: such a body would not compile, and because the driver imports
+    this file a compile error here would break the check of EVERY property instead of just losing one tie.)"""
+    import re
+    bound = set(re.findall(r"[A-Za-z_][A-Za-z0-9_']*", params)) | _LEAN_WORDS
+    bound |= set(re.findall(r"\blet\s+([A-Za-z_][A-Za-z0-9_']*)", body))
+    bound |= set(re.findall(r"\bfun\s+([A-Za-z_][A-Za-z0-9_']*)", body))
+    for text in out:
+        bound |= set(re.findall(r"^def\s+([A-Za-z_][A-Za-z0-9_']*)", text, re.M))
+    free = []
+    for m in re.finditer(r"(?<![A-Za-z0-9_'.])([A-Za-z_][A-Za-z0-9_']*)(?![A-Za-z0-9_'])", body):
+        w = m.group(1)
+        rest = body[m.end():m.end() + 1]
+        if rest == '.':
+            continue    # head of a qualified name (Int.fdiv, PcbV.PyInt.xor)
+        if w not in bound and w not in free:
+            free.append(w)
+    return free
+
+
 def _emit(out, name, params, build, typ='Int'):
     try:
         body = build()
+        free = _free_names(out, params, body)
+        if free:
+            raise py2lean.Unsupported('unbound name(s) %s in the translation' % ', '.join(free))
         out.append('def %s %s : %s :=\n  %s\n' % (name, params, typ, body))
         out.append('def %s_supported : Bool := true\n' % name)
     except (py2lean.Unsupported, SyntaxError, OSError, TypeError) as e:
@@ -61,17 +89,23 @@ def gen_translated():
     def step(fn_obj):
         def build():
             fn = py2lean.function_ast(fn_obj)
-            # the byte variable is whatever is assigned from ord(...); canonical name `c`
-            var = [ast.unparse(n.targets[0]) for n in ast.walk(fn) if isinstance(n, ast.Assign)
-                   and isinstance(n.value, ast.Call) and ast.unparse(n.value.func) == 'ord']
-            if len(set(var)) != 1:
+            # the byte variable is whatever is first assigned from an expression containing ord(...);
+            # canonical name `c`; the ord(...) call itself is the parameter `c` of the Lean definition
+            firsts = [n for n in ast.walk(fn) if isinstance(n, ast.Assign) and len(n.targets) == 1
+                      and isinstance(n.targets[0], ast.Name)
+                      and any(isinstance(x, ast.Call) and ast.unparse(x.func) == 'ord' for x in ast.walk(n.value))]
+            var = set(n.targets[0].id for n in firsts)
+            if len(var) != 1:
                 raise py2lean.Unsupported('byte variable not found')
-            if var[0] != 'c':
+            var = var.pop()
+            if var != 'c':
                 class Ren(ast.NodeTransformer):
                     def visit_Name(self, n):
-                        return ast.copy_location(ast.Name(id='c' if n.id == var[0] else n.id, ctx=n.ctx), n)
+                        return ast.copy_location(ast.Name(id='c' if n.id == var else n.id, ctx=n.ctx), n)
                 fn = Ren().visit(fn)
-            is_first = lambda s: isinstance(s, ast.AugAssign) and ast.unparse(s.target) == 'c'
+            ords = set(ast.unparse(x) for x in ast.walk(fn) if isinstance(x, ast.Call) and ast.unparse(x.func) == 'ord')
+            is_first = lambda s: (isinstance(s, ast.Assign) and ast.unparse(s.targets[0]) == 'c'
+                                  and any(o in ast.unparse(s.value) for o in ords))
             is_last = lambda s: (isinstance(s, ast.Expr) and isinstance(s.value, ast.Call)
                                  and ast.unparse(s.value.func) == 'outs.write')
             sts = py2lean.find_statements(fn, is_first, is_last)
@@ -79,8 +113,12 @@ def gen_translated():
             arg = write.args[0]
             if not (isinstance(arg, ast.Call) and ast.unparse(arg.func) == 'int2byte' and len(arg.args) == 1):
                 raise py2lean.Unsupported('outs.write argument')
-            tr = py2lean.Tr(pconsts)
-            return tr.stmts(sts[:-1], tr.expr(arg.args[0]))
+            tr = py2lean.Tr(dict(pconsts), calls=dict((o, 'c') for o in ords)).set_scope(fn_obj)
+            body = sts[:-1]
+            # `c = ord(s)` alone binds nothing new: drop it
+            if ast.unparse(body[0].value) in ords:
+                body = body[1:]
+            return tr.stmts(body, tr.expr(arg.args[0]))
         return build
 
     def next_index(fn_obj):
@@ -89,7 +127,7 @@ def gen_translated():
             is_idx = lambda s: (isinstance(s, ast.Assign) and ast.unparse(s.targets[0]) == 'index'
                                 and not isinstance(s.value, ast.Constant))
             sts = py2lean.find_statements(fn, is_idx, is_idx)
-            return py2lean.Tr(pconsts).expr(sts[0].value)
+            return py2lean.Tr(dict(pconsts)).set_scope(fn_obj).expr(sts[0].value)
         return build
     _emit(out, 'unprotNextIndex', '(index : Int)', next_index(protect.unprotect))
     _emit(out, 'protNextIndex', '(index : Int)', next_index(protect.protect))
